@@ -187,7 +187,7 @@ func main() {
 
 func checkProgram(ps progSpec, bt batch) *progResult {
 	res := &progResult{Sub: ps.Sub}
-	prog := idl.GenerateNamed(ps.Seed, ps.Cfg)
+	prog := idl.GenerateDirected(ps.Seed, ps.Cfg)
 	res.Features = prog.FeatureList()
 	addV := func(sig, what string, w interface{}) {
 		for _, v := range res.Violations {
@@ -295,6 +295,9 @@ func checkProgram(ps progSpec, bt batch) *progResult {
 		}
 	}
 	rng := rand.New(rand.NewSource(bt.Seed ^ ps.Seed))
+	// own stream for the fields whose declared default contains struct literals
+	// (drawn from only where such a field exists: the values of every other program do not move)
+	drng := rand.New(rand.NewSource(bt.Seed ^ ps.Seed ^ 0x57c7d3fa))
 	idl.LeaveDefaults = true // every struct here is built by its emitted constructor
 	for _, tc := range cases {
 		res.Types++
@@ -303,6 +306,7 @@ func checkProgram(ps progSpec, bt batch) *progResult {
 		}
 		for i := 0; i < bt.ValuesPerType; i++ {
 			av := prog.GenValue(rng, tc.file, idl.T(tc.st.Name), 0)
+			prog.LeaveStructLiteralDefaults(drng, av)
 			if tc.kind == "args" || tc.kind == "result" {
 				av = genSynth(prog, rng, tc)
 			}
